@@ -285,13 +285,20 @@ func failEdgeOnlyFails(g ssa.Instruction, v ssa.Value, fw core.FailWhen, boolFai
 			continue
 		}
 		bad := false
-		for _, ret := range core.Returns(fn) {
-			if !core.CanReach(t.Fail, ret.Block(), g.Block()) {
-				continue
-			}
-			if core.ClassifyReturn(ret, failVals, boolFail) != core.RetFailure {
+		if fw == core.ErrNonNil && t.Value != nil {
+			if b, _ := core.FailEdgeBadReturns(t, t.Value, fw, map[*ssa.BasicBlock]bool{g.Block(): true}, boolFail); len(b) > 0 {
 				bad = true
 				why = "a possibly successful return is reachable from the rejecting edge"
+			}
+		} else {
+			for _, ret := range core.Returns(fn) {
+				if !core.CanReach(t.Fail, ret.Block(), g.Block()) {
+					continue
+				}
+				if core.ClassifyReturn(ret, failVals, boolFail) != core.RetFailure {
+					bad = true
+					why = "a possibly successful return is reachable from the rejecting edge"
+				}
 			}
 		}
 		// every path from the computation to any later instruction passes this test: the test's block is the computation's
